@@ -4,6 +4,7 @@ invariant (`Chan.OK`), every bus listener the listener invariant (`Listener.OK`)
 -/
 import Aldrin.Lemmas.Broker.Frame
 import Aldrin.Lemmas.Broker.Listener
+import Aldrin.Model.Broker.Run
 
 namespace Aldrin.Broker
 open Generated
@@ -47,7 +48,7 @@ def CLInv (s : St) : Prop := ChInv s ∧ LInv s
 
 theorem CLInv_of_same {s s' : St} (h : CLInv s) (hs : SameCL s s') : CLInv s' := by
   unfold CLInv ChInv LInv at *
-  rw [hs.1, hs.2]; exact h
+  rw [hs.1, hs.2.1]; exact h
 
 theorem ChInv_of_eq {s s' : St} (h : ChInv s) (hs : s'.b.channels = s.b.channels) : ChInv s' := by
   unfold ChInv at *; rw [hs]; exact h
@@ -148,7 +149,7 @@ theorem shutdownConnection_CLInv {s s' : St} {id b} (h : CLInv s) (hr : shutdown
     have i5 := foldE_inv CLInv _ (fun s a s' hp hr => removeChannelEnd_CLInv hp hr) _ _ _ i4 h5
     have i6 := foldE_inv CLInv _ (fun s a s' hp hr => removeChannelEnd_CLInv hp hr) _ _ _ i5 h6
     refine CLInv_of_same ?_ (removeIntrospectionConn_cl hr)
-    refine CLInv_of_same (s := List.foldl _ s6 conn.calls) ?_ (by simp only [SameCL, St.stat_b_channels, St.stat_b_listeners]; exact ⟨rfl, rfl⟩)
+    refine CLInv_of_same (s := List.foldl _ s6 conn.calls) ?_ (by simp only [SameCL, St.stat_b_channels, St.stat_b_listeners, St.stat_b_stats, St.stat_b_nextCookie]; exact ⟨rfl, rfl, rfl, rfl, Nat.le_refl _⟩)
     apply foldl_inv CLInv _ ?_ _ _ i6
     intro s a hp
     exact CLInv_of_same hp (by simp [SameCL])
@@ -210,7 +211,10 @@ theorem handleEvent_CLInv {s s' : St} {e : Event} (h : CLInv s) (hr : handleEven
   all_goals (simp only [Except.ok.injEq] at hr; subst hr; exact CLInv_of_same h (by simp [SameCL]))
 
 @[simp] theorem emitBusEvent_channels (s : St) (e : BusEv) : (emitBusEvent s e).b.channels = s.b.channels := (emitBusEvent_cl s e).1
-@[simp] theorem emitBusEvent_listeners (s : St) (e : BusEv) : (emitBusEvent s e).b.listeners = s.b.listeners := (emitBusEvent_cl s e).2
+@[simp] theorem emitBusEvent_listeners (s : St) (e : BusEv) : (emitBusEvent s e).b.listeners = s.b.listeners := (emitBusEvent_cl s e).2.1
+@[simp] theorem emitBusEvent_numChannels (s : St) (e : BusEv) : (emitBusEvent s e).b.stats.numChannels = s.b.stats.numChannels := (emitBusEvent_cl s e).2.2.1
+@[simp] theorem emitBusEvent_numBusListeners (s : St) (e : BusEv) : (emitBusEvent s e).b.stats.numBusListeners = s.b.stats.numBusListeners := (emitBusEvent_cl s e).2.2.2.1
+theorem emitBusEvent_nextCookie (s : St) (e : BusEv) : s.b.nextCookie ≤ (emitBusEvent s e).b.nextCookie := (emitBusEvent_cl s e).2.2.2.2
 
 theorem processOne_CLInv {s s' : St} (h : CLInv s) (hr : processOne s = some (.ok s')) : CLInv s' := by
   unfold processOne at hr
@@ -220,6 +224,10 @@ theorem processOne_CLInv {s s' : St} (h : CLInv s) (hr : processOne s = some (.o
     | (refine shutdownConnection_CLInv (s := s.setWRemoveConns _) (CLInv_of_same h ?_) hr; simp [SameCL]; done)
     | (refine CLInv_of_same (CLInv_of_same (s' := s.setWAbortCalls _) h ?_) (abortCall_cl hr); simp [SameCL]; done)
     | (simp only [Except.ok.injEq] at hr; subst hr; refine CLInv_of_same h ?_; simp [SameCL]; done)
+    | (simp only [Except.ok.injEq] at hr; subst hr; refine CLInv_of_same h (SameCL.trans (b := s.setWCreateObject _) ?_ (emitBusEvent_cl _ _)); simp [SameCL]; done)
+    | (simp only [Except.ok.injEq] at hr; subst hr; refine CLInv_of_same h (SameCL.trans (b := s.setWCreateService _) ?_ (emitBusEvent_cl _ _)); simp [SameCL]; done)
+    | (simp only [Except.ok.injEq] at hr; subst hr; refine CLInv_of_same h (SameCL.trans (b := s.setWDestroyService _) ?_ (emitBusEvent_cl _ _)); simp [SameCL]; done)
+    | (simp only [Except.ok.injEq] at hr; subst hr; refine CLInv_of_same h (SameCL.trans (b := s.setWDestroyObject _) ?_ (emitBusEvent_cl _ _)); simp [SameCL]; done)
     | (simp only [Except.ok.injEq] at hr; subst hr; refine CLInv_of_same h ?_; split <;> simp [SameCL]; done)
     | (split at hr <;> (try split at hr) <;> (try simp only [Except.ok.injEq, reduceCtorEq] at hr) <;>
         first | (exact hr.elim) | (subst hr; refine CLInv_of_same h ?_; simp [SameCL]; done))
@@ -250,5 +258,30 @@ theorem step_CLInv {b b' : Broker} {w w' : Work} {e : Event} {out : List Out}
       obtain ⟨rfl, rfl, _⟩ := hr
       have := processLoop_CLInv _ _ _ (handleEvent_CLInv h h1) h2
       exact this
+
+theorem CLInv_init : CLInv ⟨{}, {}, []⟩ := ⟨AllV_nil, AllV_nil⟩
+
+/-- the invariant does not depend on the work queue or the output buffer -/
+theorem CLInv_b {b : Broker} {w w' : Work} {o o' : List Out} (h : CLInv ⟨b, w, o⟩) : CLInv ⟨b, w', o'⟩ := h
+
+/-- For every history: whenever the run does not panic, every channel and every bus listener of the
+final state satisfies its invariant. -/
+theorem run_CLInv : ∀ (es : List Event) (b b' : Broker) (w w' : Work) (outs : List (List Out)),
+    CLInv ⟨b, w, []⟩ → run b w es = .ok (b', w', outs) → CLInv ⟨b', w', []⟩ := by
+  intro es
+  induction es with
+  | nil => intro b b' w w' outs h hr; simp [run] at hr; obtain ⟨rfl, rfl, _⟩ := hr; exact h
+  | cons e es ih =>
+    intro b b' w w' outs h hr
+    simp only [run] at hr
+    split at hr
+    · simp at hr
+    · rename_i b1 w1 o1 h1
+      split at hr
+      · simp at hr
+      · rename_i b2 w2 o2 h2
+        simp only [Except.ok.injEq, Prod.mk.injEq] at hr
+        obtain ⟨rfl, rfl, _⟩ := hr
+        exact ih _ _ _ _ _ (step_CLInv h h1) h2
 
 end Aldrin.Broker
